@@ -99,4 +99,14 @@ CLAIMED['C18'] = {
     'technique': 'contract-based deductive verification (loop invariants over positional ghost folds, z3/cvc5) + bounded exhaustive-arrangement oracle incl. inspect round trip',
 }
 
+CLAIMED['C17'] = {
+    'category': 'proof',
+    'text': 'MerchantEngine._add_rule proved for all key-presence combinations (exactly one rule with exactly the stated properties appended in file order, or MerchantParseError '
+            'for a missing match, neither category nor tags, or an invalid let/field/match expression); information-flow and close-site clauses for parse() and parse_sections() '
+            'decided syntactically (raw line and line number flow only into errors and line_number; every section closed exactly once; views need a filter). '
+            'Whole-file layout / corruption / reporting sentences are exercised by the labelled bounded oracle. One recorded known finding (unloadable file read as empty).',
+    'level_note': _BASE_NOTE + ' The per-line regex classifiers are opaque (A6); the line-loop state machines of parse()/parse_sections() are covered by syntactic clauses and the bounded oracle, not by a loop invariant.',
+    'technique': 'contract-based deductive verification (_add_rule by symbolic execution + z3; syntactic information-flow clauses) + bounded metamorphic/corruption oracle',
+}
+
 NOT_APPLICABLE = {}
